@@ -26,12 +26,14 @@ ASSUMPTIONS = [
     "not constrained; quiescence is judged after the longest timer plus the stall length",
 ]
 
-LIFE = ["connecting", "await-cea", "open-idle", "open-inbound", "open-outbound", "open-consumer", "open-sender", "closing"]
+LIFE = ["connecting", "await-cea", "accepted", "open-idle", "open-inbound", "open-outbound", "open-consumer", "open-sender", "closing"]
 CAUSES = {
     # "close-early": the application stops the node before the connection is Open; the peer, which cannot know,
     # goes on with the handshake and answers a DPR if it gets one
     "connecting": ["refuse", "close-early"],
     "await-cea": ["eof", "rst", "non-cea", "close-early"],
+    # server role: the peer has connected but not yet sent its CER
+    "accepted": ["eof", "rst"],
     "open-idle": ["close", "dpr", "eof", "rst"],
     "open-inbound": ["close", "dpr", "eof"],
     "open-outbound": ["close", "dpr", "eof", "rst"],
@@ -76,6 +78,13 @@ class Termination(explore.Scenario):
             n.peer.wait_connect(timeout=5.0)
             if cause == "close-early":
                 n.settle(0.5)        # the state machine has left Closed (Wait-Conn-Ack): close() is accepted
+        elif life == "accepted":
+            if role != "server":
+                rt.stop("not-applicable")
+            n.peer.connect((node.LOCAL["ip"], node.LOCAL["port"]))
+            if app_t is not None:
+                app_t.join()
+            n.settle(1.0)
         elif life == "await-cea":
             if role == "server":
                 rt.stop("not-applicable")
@@ -263,6 +272,8 @@ def all_cases():
         for life in LIFE:
             if role == "server" and life in ("connecting", "await-cea"):
                 continue
+            if role == "client" and life == "accepted":
+                continue
             for cause in CAUSES[life]:
                 yield dict(role=role, life=life, cause=cause)
 
@@ -271,7 +282,7 @@ def plan(tier):
     deep = {("client", "open-idle", "close"), ("server", "open-consumer", "eof"), ("server", "open-idle", "dpr"),
             ("client", "open-outbound", "close"), ("client", "await-cea", "eof"), ("server", "closing", "eof"),
             ("client", "open-sender", "close"), ("server", "open-sender", "eof"), ("server", "open-outbound", "rst"),
-            ("client", "await-cea", "close-early")}
+            ("client", "await-cea", "close-early"), ("server", "accepted", "eof")}
     for p in all_cases():
         key = (p["role"], p["life"], p["cause"])
         if tier == "quick":
